@@ -1,5 +1,6 @@
 import PonyVerif.Drive.Util
 import PonyVerif.Model.RawSql
+import PonyVerif.Model.RawScan
 namespace PonyVerif.Drive.C30
 open Lean PonyVerif.Drive PonyVerif.Model.RawSql
 
@@ -78,5 +79,28 @@ def handle (j : Json) : Except String Json := do
       | .param i => Json.mkObj [("param", toJson i)]
     pure (Json.mkObj [("items", .arr (items.map jItem).toArray), ("exprs", .arr (exprs.map jStr).toArray),
       ("ast", .arr ((rawAst 0 items).map jAst).toArray)])
+  | "parseexpr" =>
+    -- `parse_expr(s, 0)[0]`
+    let s ← argStr j "s"
+    pure (match parseExpr s.toList with
+      | some n => Json.mkObj [("ok", jStr (s.toList.take n))]
+      | none => Json.mkObj [("error", "ValueError")])
+  | "scan" =>
+    -- the statement loop of adapt_sql on the characters of the statement: tokens, and the adaptation for a style
+    let s ← argStr j "s"
+    let style ← styleOf (← argStr j "style")
+    let jTok : Tok → Json := fun t => match t with
+      | .text t => Json.mkObj [("t", jStr t)]
+      | .dollar => Json.mkObj [("d", true)]
+      | .expr e semi => Json.mkObj [("e", jStr e), ("semi", semi)]
+    let jE : ScanErr → Json := fun e => Json.mkObj [("error", match e with
+      | .indexError => "IndexError" | .valueError => "ValueError" | .typeError => "TypeError")]
+    let raw := match scanRaw s.toList with
+      | .ok (items, exprs) => Json.mkObj [("items", .arr (items.map (fun i => match i with
+          | .str s => jStr s | .param e => Json.mkObj [("expr", jStr e)])).toArray), ("exprs", .arr (exprs.map jStr).toArray)]
+      | .error e => jE e
+    pure (match scanSql s.toList with
+      | .ok toks => Json.mkObj [("toks", .arr (toks.map jTok).toArray), ("adapted", jAdapted (adaptCold style toks)), ("raw", raw)]
+      | .error e => Json.mkObj [("scan", jE e), ("raw", raw)])
   | _ => throw s!"unknown op {op}"
 end PonyVerif.Drive.C30
